@@ -23,6 +23,7 @@
     `tools/extract_consts_mpsc.py` regenerates from the source on every run.
 -/
 import MayVerif.Proof.Queue.MpscA.Step
+import MayVerif.Proof.Queue.MpscA.Step2
 import MayVerif.Proof.Queue.SpscA.Step
 import MayVerif.Proof.Queue.MpscBits
 import MayVerif.Generated.ConstsMpsc
@@ -56,6 +57,15 @@ theorem mpsc_per_producer_order (B n : Nat) (sched : List (Tid × Env)) (t : Tid
     (((run (init B n) sched).sh.pushed.filter (fun p => p.1 = t)).map (fun p => p.2.1)).Pairwise (· < ·) :=
   reach_producer_order_list B n sched t
 
+/-- **No push is lost**: an actor that is not inside a push (idle, in a consumer operation, or returning) has ALL the
+    pushes it ever started in the log of linearized pushes – so, with `mpsc_exactly_once`, every value whose `push`
+    has returned is handed out exactly once or is still in the queue. (`cnt t` = pushes started by `t`; for an actor
+    inside a push the count is short by exactly one until that push is linearized: `MpscA.reach_no_lost_push`.) -/
+theorem mpsc_no_lost_push (B n : Nat) (sched : List (Tid × Env)) (t : Tid)
+    (h : noPush ((run (init B n) sched).pcs t) = true) :
+    ((run (init B n) sched).sh.pushed.filter (fun p => p.1 = t)).length = (run (init B n) sched).sh.cnt t :=
+  reach_completed_pushes_linearized' B n sched t h
+
 /-- **Never a value that was not pushed**: everything handed out is the value of a linearized push. -/
 theorem mpsc_never_unpushed (B n : Nat) (sched : List (Tid × Env)) (v : Nat)
     (hv : v ∈ (run (init B n) sched).sh.popped) : ∃ p ∈ (run (init B n) sched).sh.pushed, p.2.2 = v := by
@@ -69,6 +79,31 @@ theorem mpsc_never_unpushed (B n : Nat) (sched : List (Tid × Env)) (v : Nat)
 theorem mpsc_none_only_if_empty (B n : Nat) (sched : List (Tid × Env)) (e : Env) (s' : St)
     (hpc : (run (init B n) sched).pcs 0 = .pushIndex false)
     (hs : step (run (init B n) sched) 0 e = some s') (hr : s'.pcs 0 = .ret (.pop none)) :
+    (run (init B n) sched).sh.A = [] := by
+  have hi' := inv_step _ _ _ _ (inv_reach B n sched) hs
+  generalize run (init B n) sched = s at *
+  obtain ⟨m, sh, pcs⟩ := s
+  simp only at hpc
+  simp only [step] at hs
+  split at hs
+  case isFalse => contradiction
+  simp only [hpc, tstep] at hs
+  by_cases hge : sh.head ≥ pushIndex sh
+  · simp only [hge, if_true, Option.some.injEq] at hs
+    subst hs
+    have := hi'.noBadNone
+    simp only [noneLP, Bool.or_eq_false_iff, Bool.not_eq_eq_eq_not, Bool.not_false, List.isEmpty_iff] at this
+    exact this.2
+  · simp only [hge, if_false, Option.some.injEq] at hs
+    subst hs
+    simp [upd] at hr
+
+/-- **Drop leaves nothing behind**: `Queue::drop` pops until `pop` returns `None`; at that `None` the abstract queue is
+    empty, and by `mpsc_exactly_once` every value taken by the loop (they are logged in `popped`, the loop drops
+    them) was taken exactly once. -/
+theorem mpsc_drop_empties (B n : Nat) (sched : List (Tid × Env)) (e : Env) (s' : St)
+    (hpc : (run (init B n) sched).pcs 0 = .pushIndex true)
+    (hs : step (run (init B n) sched) 0 e = some s') (hr : s'.pcs 0 = .ret .unit) :
     (run (init B n) sched).sh.A = [] := by
   have hi' := inv_step _ _ _ _ (inv_reach B n sched) hs
   generalize run (init B n) sched = s at *
@@ -143,6 +178,9 @@ def wBulk : List (Tid × Env) :=
 example : (run (init 4 2) wBulk).pcs 0 = .ret (.bulk [5, 6]) ∧ (run (init 4 2) wBulk).sh.pushed = [(1, 0, 5), (1, 1, 6)] ∧
     (run (init 4 2) wBulk).sh.popped = [5, 6] := by decide
 
+/-- after `wBulk` producer 1 is idle again, started two pushes, and both are in the log (`mpsc_no_lost_push`) -/
+example : noPush ((run (init 4 2) wBulk).pcs 1) = true ∧ (run (init 4 2) wBulk).sh.cnt 1 = 2 := by decide
+
 end mpsc
 
 /-! ## spsc, level A (`Model/Queue/SpscA.lean`: one producer role, one consumer role, every schedule of their steps) -/
@@ -172,6 +210,28 @@ theorem spsc_never_unpushed (B : Nat) (hB : 0 < B) (sched : List Act) :
 theorem spsc_none_only_if_empty (B : Nat) (hB : 0 < B) (sched : List Act) (e : Env) (s' : St)
     (hpc : (run (init B) sched).cp = .pLoad)
     (hs : step (run (init B) sched) (.cons e) = some s') (hr : s'.cp = .ret (.pop none)) :
+    (run (init B) sched).sh.A = [] := by
+  have hi' := inv_step _ _ _ (inv_reach B hB sched) hs
+  generalize run (init B) sched = s at *
+  obtain ⟨sh, pp, cp⟩ := s
+  simp only at hpc
+  subst hpc
+  simp only [step, cstep] at hs
+  by_cases hht : sh.head = sh.tail
+  · simp only [hht, if_true, Option.some.injEq] at hs
+    subst hs
+    have := hi'.noBadNone
+    simp only [noneLP, Bool.or_eq_false_iff, Bool.not_eq_eq_eq_not, Bool.not_false, List.isEmpty_iff] at this
+    exact this.2
+  · simp only [hht, if_false, Option.some.injEq] at hs
+    subst hs
+    simp at hr
+
+/-- **Drop leaves nothing behind**: `Queue::drop` calls `bulk_pop` until it returns nothing; at that point the abstract
+    queue is empty. -/
+theorem spsc_drop_empties (B : Nat) (hB : 0 < B) (sched : List Act) (e : Env) (s' : St)
+    (hpc : (run (init B) sched).cp = .bLoad true)
+    (hs : step (run (init B) sched) (.cons e) = some s') (hr : s'.cp = .ret .unit) :
     (run (init B) sched).sh.A = [] := by
   have hi' := inv_step _ _ _ (inv_reach B hB sched) hs
   generalize run (init B) sched = s at *
